@@ -103,6 +103,10 @@ func NewJsonNode(n interface{}) (JsonNode, error) {
 		return jsonNumber(t), nil
 	case int:
 		return jsonNumber(t), nil
+	case int64:
+		return jsonNumber(t), nil
+	case uint64:
+		return jsonNumber(t), nil
 	case string:
 		return jsonString(t), nil
 	case bool:
